@@ -46,7 +46,7 @@ type hist struct {
 	users  []types.Address
 	tokens []types.ZenonTokenStandard
 	owned  map[types.Address][]types.ZenonTokenStandard
-	prev   *Scan // confirmed state after the last momentum
+	prev   *Scan            // confirmed state after the last momentum
 	xcache map[types.Hash]M // contract receive (by hash) -> its op, built when first seen in the pool
 	quiet  bool             // reward histories: scan only momentums with content
 	forced *forcedCall
@@ -90,6 +90,7 @@ func history(rng *rand.Rand, out *Out, steps int) {
 	h.prev = h.sc.Scan(false)
 	ok, d := h.prev.SupplyOracle()
 	out.Oracle(ok, "c01-genesis-supply", d)
+	probed := false
 	for s := 0; s < steps; s++ {
 		switch k := rng.Intn(100); {
 		case k < 30:
@@ -104,6 +105,9 @@ func history(rng *rand.Rand, out *Out, steps int) {
 			h.attemptReceive()
 		default:
 			h.momentum()
+			if !probed && s > steps/4 {
+				probed = h.relayProbe()
+			}
 		}
 	}
 	h.momentum()
@@ -614,7 +618,6 @@ func (h *hist) attemptReceive() {
 	h.out.Case("c01_step", Tup(true, pre.term(x, true, nil), Con("OReceive", I64(x.Addr(b.Address)), I64(x.Hash(fromHash)))),
 		Tup(I64(code), post), "receive:"+codeName[code])
 }
-
 
 // statementOracles: (a) the recorded supply of a token changes only if the segment contains a successful
 // IssueToken / Mint / Burn received by the token contract; (b) a failed call that carried an amount is refunded
